@@ -79,6 +79,19 @@ static int replay(const char *path) {
       const int_fast32_t cand[] = {0, 1, 2, 3, 0x7fffffff, (int_fast32_t)0x80000000ll, (int_fast32_t)0x80000001ll, -1, 42};
       for (int_fast32_t c : cand) bad |= check_seed(c, "native boundary search");
     }
+    if (!bad) {
+      /* the contract is stated for an ARBITRARY generator state before seeding: re-seeding a used generator must
+       * give the state of a fresh generator with that seed */
+      for (int draws = 1; draws <= 40 && !bad; ++draws) {
+        RandomGenerator used(42);
+        for (int d = 0; d < draws; ++d) used.get_uniform_random_double();
+        used.set_seed(512);
+        RandomGenerator fresh(512);
+        bool same = cm_bits(used._carry) == cm_bits(fresh._carry) && used._ir == fresh._ir && used._jr == fresh._jr && used._ir_old == fresh._ir_old && used._pr == fresh._pr;
+        for (int i = 0; i < 12; ++i) same = same && cm_bits(used._xdbl[i]) == cm_bits(fresh._xdbl[i]);
+        if (!same) { std::printf("REPRODUCED (native boundary search): generator(42) after %d draws re-seeded with 512 differs from a fresh generator(512) (carry %a vs %a, luxury %lu vs %lu)\n", draws, used._carry, fresh._carry, (unsigned long)used._pr, (unsigned long)fresh._pr); bad = 1; }
+      }
+    }
     if (!bad) std::printf("NOT-REPRODUCED\n");
     return bad;
   }
